@@ -214,29 +214,11 @@ def r5(ctx, report):
             if si3 != "term" and x.get("k") == "ref" and not x["pl"]["p"]:
                 base = x["pl"]["l"]
         cursors.add(base)
-        # result vector: dest -> branch -> Continue payload -> named local
-        dest = t["dest"]["l"]
+        # result vector: every local that holds the returned Vec as a whole (through `?`, moves, a carrier struct ...)
         vec = set()
-        cur = dest
-        for _ in range(8):
-            users = []
-            for bj, bl in enumerate(pp.blocks):
-                if bl["cleanup"]:
-                    continue
-                tt = bl["term"]
-                if tt["t"] == "call" and any(mu.op_local(a) == cur for a in tt["args"]) and tt["callee"] and \
-                        tt["callee"]["def"].endswith("as std::ops::Try>::branch"):
-                    users.append(("call", tt["dest"]["l"]))
-                for s2 in bl["stmts"]:
-                    if s2["s"] == "assign" and s2["rv"]["k"] == "use" and s2["rv"]["op"].get("o") in ("copy", "move") \
-                            and s2["rv"]["op"]["pl"]["l"] == cur and not s2["pl"]["p"] \
-                            and "std::vec::Vec<" in pp.local_ty(s2["pl"]["l"])["s"]:
-                        users.append(("mv", s2["pl"]["l"]))
-            if len(users) != 1:
-                break
-            cur = users[0][1]
-            if pp.local_ty(cur)["s"].startswith("std::vec::Vec<"):
-                vec.add(cur)
+        for (tl, tp) in mu.flow_forward(pp, t["dest"]["l"], start_path=(("v", "Ok"), ("f", 0))):
+            if not tp and pp.local_ty(tl)["s"].startswith("std::vec::Vec<"):
+                vec.add(tl)
         vec_of_call.append(vec)
     report.count()
     if len(cursors) != 1 or None in cursors:
@@ -266,46 +248,65 @@ def r5(ctx, report):
     # mutable access to the section vectors: `&mut <vec>` may only feed the audited lift-out closure, whose only
     # mutation is Vec::remove (order-preserving; swap_remove / retain / sort / reverse / drain ... are not)
     vecs = set(v for c in vec_of_call for v in c)
+    # every `&mut` reference to a section vector, with its copies and reborrows (a reference handed to a helper that has
+    # been inlined back is `_p = move _r; ... &mut (*_p)`): whatever receives one of them may only remove / pop
     n_mut = 0
-    for bi, bl in enumerate(pp.blocks):
-        if bl["cleanup"]:
-            continue
-        for si, s2 in enumerate(bl["stmts"]):
-            if s2["s"] != "assign" or s2["rv"]["k"] != "ref" or not s2["rv"]["mut"] or s2["rv"]["pl"]["l"] not in vecs:
+    refs = {}          # reference local -> vector local
+    changed = True
+    while changed:
+        changed = False
+        for bi, bl in enumerate(pp.blocks):
+            if bl["cleanup"]:
                 continue
-            n_mut += 1
-            report.count()
-            r = s2["pl"]["l"]
-            ok = False
-            why = "it is passed to code other than a closure of Packet::parse"
-            # used directly: the borrow may only be the receiver of Vec::remove
-            users = [tt for _, tt in mu.calls(pp, r".") if any(mu.op_local(a) == r for a in tt["args"])]
-            if users and all(tt["callee"] and tt["callee"]["def"] in ("std::vec::Vec::<T, A>::remove", "std::vec::Vec::<T, A>::pop") and mu.op_local(tt["args"][0]) == r
-                             for tt in users):
-                ok = True
-            elif users:
-                why = "it is passed to %s" % sorted(set(tt["callee"]["def"] if tt["callee"] else "?" for tt in users))
-            for bj, bl2 in enumerate(pp.blocks):
-                for s3 in bl2["stmts"]:
-                    if s3["s"] == "assign" and s3["rv"]["k"] == "agg" and s3["rv"].get("ak") == "closure" and \
-                            any(mu.op_local(o) == r for o in s3["rv"]["ops"]):
-                        cb = prog.bodies.get(s3["rv"]["def"])
-                        muts = []
-                        for _, tt in mu.calls(cb, r".") if cb is not None else []:
-                            a0 = tt["args"][0] if tt["args"] else None
-                            if a0 is not None and a0.get("o") in ("copy", "move") and \
-                                    cb.ty(a0["pl"]["t"])["s"].startswith("&mut std::vec::Vec<"):
-                                muts.append(tt["callee"]["def"])
-                        bad = [m for m in muts if m not in ("std::vec::Vec::<T, A>::remove", "std::vec::Vec::<T, A>::pop")]
-                        if cb is not None and not bad and len(muts) <= 1:
-                            ok = True
-                        else:
-                            why = "its closure mutates the vector through %s" % (bad or muts)
-            if ok:
-                report.nontriv("mut-borrow bb%d" % bi)
-            else:
-                viol(report, "C05-R5", pp, "order", "section vector _%d is borrowed mutably at `%s` and %s: only Vec::remove keeps the "
-                     "remaining records in wire order" % (s2["rv"]["pl"]["l"], s2["sp"].get("sn") or "&mut", why), "mut-borrow")
+            for s2 in bl["stmts"]:
+                if s2["s"] != "assign" or s2["pl"]["p"]:
+                    continue
+                rv = s2["rv"]
+                tgt = None
+                if rv["k"] == "ref" and rv["mut"]:
+                    if not rv["pl"]["p"] and rv["pl"]["l"] in vecs:
+                        tgt = rv["pl"]["l"]
+                    elif rv["pl"]["p"] == ["d"] and rv["pl"]["l"] in refs:
+                        tgt = refs[rv["pl"]["l"]]
+                elif rv["k"] in ("use", "cast") and rv["op"].get("o") in ("copy", "move") and not rv["op"]["pl"]["p"] and rv["op"]["pl"]["l"] in refs:
+                    tgt = refs[rv["op"]["pl"]["l"]]
+                if tgt is not None and s2["pl"]["l"] not in refs:
+                    refs[s2["pl"]["l"]] = tgt
+                    changed = True
+    OKM = ("std::vec::Vec::<T, A>::remove", "std::vec::Vec::<T, A>::pop")
+    by_vec = {}
+    for r, v in refs.items():
+        by_vec.setdefault(v, set()).add(r)
+    for v, rs in sorted(by_vec.items()):
+        n_mut += 1
+        report.count()
+        bad = []
+        uses = 0
+        for _, tt in mu.calls(pp, r"."):
+            if any(mu.op_local(a) in rs for a in tt["args"]):
+                uses += 1
+                cal = tt["callee"]["def"] if tt["callee"] else "an indirect call"
+                if not (cal in OKM and mu.op_local(tt["args"][0]) in rs):
+                    bad.append(cal)
+        for bl2 in pp.blocks:
+            for s3 in bl2["stmts"]:
+                if s3["s"] == "assign" and s3["rv"]["k"] == "agg" and s3["rv"].get("ak") == "closure" and \
+                        any(mu.op_local(o) in rs for o in s3["rv"]["ops"]):
+                    uses += 1
+                    cb = prog.bodies.get(s3["rv"]["def"])
+                    muts = []
+                    for _, tt in mu.calls(cb, r".") if cb is not None else []:
+                        a0 = tt["args"][0] if tt["args"] else None
+                        if a0 is not None and a0.get("o") in ("copy", "move") and \
+                                cb.ty(a0["pl"]["t"])["s"].startswith("&mut std::vec::Vec<"):
+                            muts.append(tt["callee"]["def"])
+                    if cb is None or len(muts) > 1 or any(m not in OKM for m in muts):
+                        bad.append("a closure that mutates it through %s" % (muts,))
+        if bad:
+            viol(report, "C05-R5", pp, "order", "section vector _%d is borrowed mutably and handed to %s: only Vec::remove / pop keep the "
+                 "remaining records in wire order" % (v, sorted(set(bad))), "mut-borrow")
+        else:
+            report.nontriv("mut-borrow _%d" % v)
     # calls that take a section vector by value (into_iter / sort via by-value helpers) before the aggregate
     for bi, t in mu.calls(pp, r"."):
         for a in t["args"]:
